@@ -163,6 +163,9 @@ func checkC15(c C15Case) Verdict {
 				src.WriteString(" // CMT" + p + "\n")
 			case "block":
 				src.WriteString("/* CMT" + p + " */")
+			case "blocktight":
+				// nothing between the comment's last character and its end: /* CMT**/, /*CMT x*/
+				src.WriteString("/* CMT" + p + "*/")
 			default:
 				src.WriteString(p)
 				stripped.WriteString(p)
@@ -246,7 +249,7 @@ func genC15(t *rapid.T) C15Case {
 	case 5, 6, 7:
 		c.Level = "L2"
 		for i, n := 0, rapid.IntRange(1, 6).Draw(t, "npieces"); i < n; i++ {
-			k := rapid.SampledFrom([]string{"text", "text", "line", "block", "slashtext"}).Draw(t, "kind")
+			k := rapid.SampledFrom([]string{"text", "text", "line", "block", "slashtext", "blocktight"}).Draw(t, "kind")
 			switch k {
 			case "slashtext":
 				// text that begins with "//" directly after a tag, a block comment or a non-whitespace
@@ -262,6 +265,8 @@ func genC15(t *rapid.T) C15Case {
 				c.Runs = append(c.Runs, p)
 			case "text":
 				c.Runs = append(c.Runs, rapid.SampledFrom([]string{"a", "b c", " d ", "\n", "  \n  ", "<p>", "http://x.y/z", "a//b", "e\n", "\nf", "x:// y", "<br>\n", " ", "é", "1/2", "ftp://h/ /p"}).Draw(t, "text"))
+			case "blocktight":
+				c.Runs = append(c.Runs, rapid.SampledFrom([]string{"", "*", "**", "***", "****", " x*", " x **", "/", "/*", " * / *", "*\n*"}).Draw(t, "cmt"))
 			case "line":
 				c.Runs = append(c.Runs, rapid.SampledFrom([]string{"", " note", " {$x} {if}", " /* not a block", " http://u"}).Draw(t, "cmt"))
 			default:
